@@ -516,7 +516,16 @@ pub fn semtype_to_runtypes(
         .filter(|it| schemer.recursive_validators.contains(&it.name))
         .collect();
 
-    let vs = vs.into_iter().filter(|it| &it.name != name).collect();
+    // a result that refers to itself keeps its definition under `name` and is handed back as a reference to it
+    if vs.iter().any(|it| &it.name == name) {
+        return Ok((
+            NamedSchema {
+                name: name.clone(),
+                schema: Runtype::ref_(name.clone()),
+            },
+            vs,
+        ));
+    }
     Ok((
         NamedSchema {
             name: name.clone(),
